@@ -1446,6 +1446,10 @@ func winCase(h *verifx.H, r *verifx.Rng) {
 
 func main() {
 	h := verifx.New()
+	if h.Mode == "probe" {
+		probe(h.Arg)
+		return
+	}
 	metric := &format.MetricMetaValue{MetricID: 1, Name: "m", Kind: format.MetricKindValue,
 		Tags: []format.MetricMetaTag{{}, {Name: "a"}, {Name: "b"}, {Name: "c"}}}
 	_ = metric.RestoreCachedInfo()
@@ -1463,4 +1467,18 @@ func main() {
 		h.Note("worst numeric error / allowed = %.3g", worstNumeric)
 	}
 	h.Done()
+}
+
+// -mode=probe -arg='<promql>': one fixed storage, prints the storage queries and the result (debugging aid)
+func probe(text string) {
+	metric := &format.MetricMetaValue{MetricID: 1, Name: "m", Kind: format.MetricKindValue,
+		Tags: []format.MetricMetaTag{{}, {Name: "a"}, {Name: "b"}, {Name: "c"}}}
+	_ = metric.RestoreCachedInfo()
+	st := &store{metric: metric, tags: [][3]int64{{1, 1, 1}, {1, 2, 1}, {2, 1, 1}},
+		events: []event{{0, 100, 2}, {0, 101, 4}, {1, 100, 10}, {1, 101, 30}, {2, 100, 7}, {2, 101, 9}}}
+	r := run(st, text, 100, 102, 1, 110)
+	fmt.Println("err:", r.err, "queries:", r.queries())
+	for _, l := range r.lines {
+		fmt.Println(" ", l)
+	}
 }
